@@ -696,6 +696,7 @@ func ReplayMain(path string) int {
 		return 2
 	}
 	limitMemory()
+	runtime.GOMAXPROCS(1) // as in the worker that found the failure (per-P state such as sync.Pool behaves alike)
 	rec := NewRec(rf.Tier, Seed())
 	rec.Replay = true
 	rec.ReplayChoices = rf.Failure.Choices
